@@ -137,7 +137,7 @@ Definition lbuild (v : lfile) : lfile := lmarshal (lcreate' v).
    The new batch copies the ODFI of the stored one, so [b_odfi] of the stored batch is the
    ODFI the trace is compared with. *)
 Record touch := mktouch {
-  t_sel : nat -> bool;          (* a new batch holding the entries of stored batch i reached the trace loop of its build *)
+  t_sel : nat -> nat -> bool;   (* the build of a new batch holding entry j of stored batch i reached that entry in its trace loop *)
   t_reset : nat -> bool;        (* stored batch i is a mixed IAT batch being segmented: TraceNumber = "" first *)
   t_pos : nat -> nat -> Z }.    (* seq of entry j of stored batch i in the new batch *)
 
@@ -147,10 +147,10 @@ Definition touch_entry (odfi : Z) (sel reset : bool) (s : Z) (e : Offsets.entry)
   then Offsets.set_trace e0 (odfi * Offsets.P7 + s mod Offsets.P7)
   else e0.
 
-Fixpoint touch_entries (odfi : Z) (sel reset : bool) (pos : nat -> Z) (j : nat) (es : list Offsets.entry) : list Offsets.entry :=
+Fixpoint touch_entries (odfi : Z) (sel : nat -> bool) (reset : bool) (pos : nat -> Z) (j : nat) (es : list Offsets.entry) : list Offsets.entry :=
   match es with
   | [] => []
-  | e :: r => touch_entry odfi sel reset (pos j) e :: touch_entries odfi sel reset pos (S j) r
+  | e :: r => touch_entry odfi (sel j) reset (pos j) e :: touch_entries odfi sel reset pos (S j) r
   end.
 
 (* the stored batch keeps its own control: nothing recomputes it *)
@@ -211,7 +211,8 @@ Record labels := mklab {
   l_flatres : lfile -> id -> lfile;             (* the new objects *)
   l_cred : lfile -> id -> lfile;
   l_deb : lfile -> id -> lfile;
-  l_offs : offs -> Offsets.offcfg }.            (* the decoded ach.Offset of pool index o *)
+  l_offs : offs -> Offsets.offcfg;              (* the decoded ach.Offset of pool index o *)
+  l_balv : lfile -> nat -> bool }.              (* BalanceFile: verdict of the SEC specific Validate closing Batch.Create of batch i *)
 
 (* service.FlattenBatches: f.Create(); on success f.FlattenBatches() *)
 Definition lflatsrc (L : labels) (v : lfile) : lfile :=
@@ -241,14 +242,17 @@ Definition with_offcfg (b : Offsets.batch) (o : Offsets.offcfg) : Offsets.batch 
                   (Offsets.b_entries b) (Offsets.b_ctl b) (Some o).
 
 (* for i := range f.Batches { f.Batches[i].WithOffset(off); if err := f.Batches[i].Create(); err != nil { return } }
-   — the first failing batch keeps what its build left, the rest is not reached.
+   — Batch.Create = build, then the SEC specific Validate (its verdict on batch i is the
+   label [vok i]); the first failing batch keeps what its build left, the rest is not reached.
    (A build that panics or hangs would end the loop the same way; C05_build_total: never.) *)
-Fixpoint bal_batches (T : Offsets.otable) (o : Offsets.offcfg) (bs : list Offsets.batch) : bool * list Offsets.batch :=
+Fixpoint bal_batches (T : Offsets.otable) (o : Offsets.offcfg) (vok : nat -> bool) (i : nat) (bs : list Offsets.batch)
+  : bool * list Offsets.batch :=
   match bs with
   | [] => (true, [])
   | b :: r =>
       match Offsets.build T (with_offcfg b o) with
-      | Offsets.Ret true b' => let rr := bal_batches T o r in (fst rr, b' :: snd rr)
+      | Offsets.Ret true b' =>
+          if vok i then let rr := bal_batches T o vok (S i) r in (fst rr, b' :: snd rr) else (false, b' :: r)
       | Offsets.Ret false b' => (false, b' :: r)
       | _ => (false, with_offcfg b o :: r)
       end
@@ -260,7 +264,7 @@ Definition lbal (T : Offsets.otable) (L : labels) (v : lfile) (o : offs) (i : id
   match fst r with
   | SOk =>
       let v1 := snd r in
-      let bb := bal_batches T (l_offs L o) (Offsets.f_batches (lf_off v1)) in
+      let bb := bal_batches T (l_offs L o) (l_balv L v1) 0 (Offsets.f_batches (lf_off v1)) in
       let v2 := with_off v1 (Offsets.with_batches (lf_off v1) (snd bb)) in
       if fst bb then lcreate' (lsetid v2 i) else v2
   | _ => snd r
